@@ -651,7 +651,7 @@ class CellsEncoder(BaseEncoder):
         if self.target.formula:
             if self.target.formula.source[:6] == "lambda":
                 line = self.target.name + " = " + self.target.formula.source
-                if self.target.doc:
+                if self.target.doc is not None:
                     line += "\n" + quote_docstring(self.target.doc)
                 lines.append(line)
             else:
